@@ -303,11 +303,27 @@ func TestVerif_C26_DepositSweep(t *testing.T) {
 		deposits := make([]*Deposit, nDep)
 		kinds := map[string]bool{}
 		var desc strings.Builder
+		// The assembler takes the deposits as given: a deposit revealed for
+		// ANOTHER wallet (first or elsewhere in the batch) must not change
+		// who is paid - the output belongs to the key of the sweeping wallet.
+		foreignMode := rapid.SampledFrom([]string{"none", "none", "first", "some", "all"}).Draw(t, "foreignWalletDeposits")
 		for i := range deposits {
+			depositWallet := pkh
+			if foreignMode == "all" || (foreignMode == "first" && i == 0) ||
+				(foreignMode == "some" && rapid.Bool().Draw(t, "foreignDeposit")) {
+				depositWallet = c26Bytes20(t, "foreignWalletPkh")
+				if depositWallet == pkh {
+					depositWallet[0] ^= 0xff
+				}
+			}
 			d := &Deposit{
 				Depositor:           c26Address(t, "depositor"),
-				WalletPublicKeyHash: pkh,
+				WalletPublicKeyHash: depositWallet,
 				RefundPublicKeyHash: c26Bytes20(t, "refund"),
+			}
+			if rapid.IntRange(0, 3).Draw(t, "hasVault") == 0 {
+				v := c26Address(t, "vault")
+				d.Vault = &v
 			}
 			copy(d.BlindingFactor[:], rapid.SliceOfN(rapid.Byte(), 8, 8).Draw(t, "blinding"))
 			copy(d.RefundLocktime[:], rapid.SliceOfN(rapid.Byte(), 4, 4).Draw(t, "locktime"))
@@ -335,6 +351,9 @@ func TestVerif_C26_DepositSweep(t *testing.T) {
 			want = append(want, c26OutpointOf(d.Utxo))
 			total += d.Utxo.Value
 			fmt.Fprintf(&desc, " %s:%d", kind, d.Utxo.Value)
+			if depositWallet != pkh {
+				desc.WriteString("(foreign)")
+			}
 		}
 		fee, feeClass := c26Fee(t, total, "fee")
 
@@ -361,7 +380,8 @@ func TestVerif_C26_DepositSweep(t *testing.T) {
 		}
 		nt := main != nil && len(kinds) >= 2
 		st.Case(nt, fmt.Sprintf("main=%s:%d deps=[%s] fee=%d", mainKind, mainVal, strings.TrimSpace(desc.String()), fee),
-			"main:"+mainKind, "deposits:"+c26Bucket(nDep), "fee:"+feeClass, fmt.Sprintf("deposit-kinds:%d", len(kinds)))
+			"main:"+mainKind, "deposits:"+c26Bucket(nDep), "fee:"+feeClass, fmt.Sprintf("deposit-kinds:%d", len(kinds)),
+			"foreign-wallet-deposits:"+foreignMode)
 	})
 }
 
@@ -436,6 +456,38 @@ func TestVerif_C26_Redemption(t *testing.T) {
 			rem = rapid.Int64Range(1, maxRem).Draw(t, "feeRemainderNonZero")
 		}
 		fee := base*int64(n) + rem
+		// TxMaxFee is NOT an input of the assembly (the fee distribution
+		// function alone decides the shares, the Bridge validates them):
+		// draw it freely - above, equal to, just below the share, unset.
+		maxFeeBelow := 0
+		for i, r := range requests {
+			share := base
+			if i == n-1 {
+				share += rem
+			}
+			class := rapid.SampledFrom([]string{"above", "equal", "equal-base", "below", "zero"}).Draw(t, "txMaxFeeClass")
+			switch class {
+			case "above":
+				r.TxMaxFee = uint64(share + int64(rapid.IntRange(1, 1_000_000).Draw(t, "txMaxFeeAbove")))
+			case "equal":
+				r.TxMaxFee = uint64(share)
+			case "equal-base":
+				// what an even split would allow: the remainder put on the
+				// last request exceeds it
+				r.TxMaxFee = uint64(base)
+			case "below":
+				if share > 0 {
+					r.TxMaxFee = uint64(rapid.Int64Range(0, share-1).Draw(t, "txMaxFeeBelow"))
+				} else {
+					r.TxMaxFee = 0
+				}
+			default:
+				r.TxMaxFee = 0
+			}
+			if int64(r.TxMaxFee) < share {
+				maxFeeBelow++
+			}
+		}
 
 		// main UTXO covers all redeemable amounts; change class drawn.
 		var change int64
@@ -510,8 +562,9 @@ func TestVerif_C26_Redemption(t *testing.T) {
 		if rem != 0 {
 			remClass = "fee-remainder:nonzero"
 		}
-		st.Case(nt, fmt.Sprintf("main=%s:%d reqs(amount-treasury)=[%s] fee=%d shape=%s", mainKind, mainValue, strings.TrimSpace(desc.String()), fee, shapeName),
-			"main:"+mainKind, "requests:"+c26Bucket(n), "change:"+changeClass, remClass, "shape:"+shapeName)
+		st.Case(nt, fmt.Sprintf("main=%s:%d reqs(amount-treasury)=[%s] fee=%d shape=%s txmaxfee-below-share=%d", mainKind, mainValue, strings.TrimSpace(desc.String()), fee, shapeName, maxFeeBelow),
+			"main:"+mainKind, "requests:"+c26Bucket(n), "change:"+changeClass, remClass, "shape:"+shapeName,
+			fmt.Sprintf("requests-with-txmaxfee-below-share:%d", min(maxFeeBelow, 3)))
 	})
 }
 
